@@ -54,9 +54,10 @@ GuardsRefineProperty(r, prod, c) == MustReject(r, prod, c) => ~ImplOk(r, prod, c
 
 (* ---------------------------------------------------------------------------------------------- *)
 (* Block hooks and liquidation messages: "no liquidation sweep or new surplus/debt auction is started for it" *)
-Hooks == {"liqV2.sweepVault", "liqV2.sweepBorrow", "liqV2.surplus", "liqV2.debt", "liqV1.sweepVault",
-          "aucV1.surplus", "aucV1.debt", "liqV2.msgInternalVault", "liqV2.msgInternalBorrow", "liqV1.msgVault"}
-HookApp(h) == IF h \in {"liqV2.sweepBorrow", "liqV2.msgInternalBorrow"} THEN "commodo" ELSE "harbor"
+Hooks == {"liqV2.sweepVault", "liqV2.sweepBorrow", "liqV2.surplus", "liqV2.debt", "liqV1.sweepVault", "liqV1.sweepBorrow",
+          "aucV1.surplus", "aucV1.debt", "liqV2.msgInternalVault", "liqV2.msgInternalBorrow", "liqV1.msgVault", "liqV1.msgBorrow",
+          "app.blockHarbor", "app.blockCommodo"}     \* the application's whole begin/end-block pipeline with every trigger armed
+HookApp(h) == IF h \in {"liqV2.sweepBorrow", "liqV2.msgInternalBorrow", "liqV1.sweepBorrow", "liqV1.msgBorrow", "app.blockCommodo"} THEN "commodo" ELSE "harbor"
 (* under a breaker the hook must neither seize a position nor start an auction for the app *)
 HookMustIdle(h, c) == c.breaker
 (* as coded: the sweeps also idle once shutdown is executed, except the V2 borrow sweep and the V2 surplus/debt starter *)
